@@ -1820,6 +1820,162 @@ def sec_ops(cx):
 
 
 # --------------------------------------------------------------------------
+# the real binary (command line flags -> preferences -> the same codecs): a sample per format
+# --------------------------------------------------------------------------
+def jnorm(x):
+    return json.loads(json.dumps(x))
+
+
+def cli_check(reader, expected, out):
+    """independent reading of the binary's stdout, compared with the ground truth"""
+    if reader == "json":
+        return json.loads(out) == expected
+    if reader == "json_close":
+        return _json_close(json.loads(out), expected)
+    if reader == "json_unordered":
+        return _json_sorted(json.loads(out)) == _json_sorted(expected)
+    if reader == "b64":
+        return base64.b64decode(out, validate=True) == expected.encode()
+    if reader == "uri":
+        return urllib.parse.unquote_plus(out.decode()) == expected
+    if reader.startswith("csv:"):
+        return py_csv_read(out.decode(), reader[4:]) == expected
+    if reader == "props":
+        return jnorm(java_props_read(out.decode())) == expected
+    if reader == "xml":
+        return jnorm(et_to_elem(ET.fromstring(out.decode()))) == expected
+    if reader == "lua":
+        return lua_same(lua_read(out), _to_bytes(expected))
+    return False
+
+
+def cli_run(job):
+    label, args, stdin, reader, expected = job
+    rc, out, err = vlib.run_yq(args, stdin=stdin)
+    try:
+        good = rc == 0 and bool(cli_check(reader, expected, out))
+    except Exception:
+        good = False
+    return good, rc, out, err
+
+
+@section
+def sec_cli(cx):
+    chk, rng = cx.chk, cx.rng
+    from concurrent.futures import ThreadPoolExecutor
+    jobs = []      # (label, args, stdin bytes, reader, expected)
+
+    def add(*job):
+        jobs.append(job)
+
+    for _ in range(cx.n(6, 60)):
+        s = gen_safe_str(rng) + rng.choice(["", " &=+", "/é中", "%", "\t"])
+        add("base64 -p (unpadded)", ["-p=base64", "-o=json", "."], base64.b64encode(s.encode()).rstrip(b"="), "json", s)
+        add("uri -p", ["-p=uri", "-o=json", "."], urllib.parse.quote_plus(s, safe="").encode(), "json", s)
+        add("base64 -o", ["-p=json", "-o=base64", "."], json.dumps(s).encode(), "b64", s)
+        add("uri -o", ["-p=json", "-o=uri", "."], json.dumps(s).encode(), "uri", s)
+        add("@base64 | @base64d", ["-p=json", "-o=json", ". | @base64 | @base64d"], json.dumps(s).encode(), "json", s)
+        add("@uri | @urid", ["-p=json", "-o=json", ". | @uri | @urid"], json.dumps(s).encode(), "json", s)
+    for _ in range(cx.n(8, 80)):
+        sep = rng.choice([",", ";", "|"])
+        hdr = list(dict.fromkeys(gen_safe_str(rng) for _ in range(rng.randrange(1, 4))))
+        rows = [[gen_safe_str(rng) + rng.choice(["", sep, '"', "\n", " x"]) for _ in hdr] for _ in range(rng.randrange(1, 4))]
+        objs = [dict(zip(hdr, r)) for r in rows]
+        trows = [[c.replace(sep, "\t") for c in r] for r in rows]
+        add("csv -o", ["-p=json", "-o=csv", "--csv-separator", sep, "."], json.dumps(objs).encode(), "csv:" + sep, [hdr] + rows)
+        add("csv -p", ["-p=csv", "-o=json", "--csv-separator", sep, "."], py_csv_write([hdr] + rows, sep, rng.choice(["\n", "\r\n"])).encode(), "json", objs)
+        add("tsv -o", ["-p=json", "-o=tsv", "."], json.dumps(trows).encode(), "csv:\t", trows)
+    for _ in range(cx.n(8, 80)):
+        d = {gen_safe_str(rng).replace(" ", "_"): gen_safe_str(rng) + rng.choice(["", "=x", ": y", "\\z", "\tq", "é"]) for _ in range(rng.randrange(1, 4))}
+        nested = {"top": d, "list": [gen_safe_str(rng), gen_safe_str(rng)]}
+        psep = rng.choice([" = ", "=", ":"])
+        add("props -o", ["-p=json", "-o=props", "--properties-separator", psep, "."], json.dumps(nested).encode(), "props", jnorm(props_flatten(nested)))
+        add("props -o brackets", ["-p=json", "-o=props", "--properties-array-brackets", "."], json.dumps(nested).encode(), "props", jnorm(props_flatten(nested, "", True)))
+        add("props -p", ["-p=props", "-o=json", "."], java_props_write(props_flatten(nested), rng.choice(["=", " = ", ":"]), rng).encode(), "json", nested)
+    for _ in range(cx.n(8, 80)):
+        e = gen_elem(rng)
+        ap, cn = rng.choice([("+@", "+content"), ("_", "#text")])
+        doc = {e[0]: xml_value_py(e, ap, cn)}
+        flags = ["--xml-attribute-prefix", ap, "--xml-content-name", cn]
+        add("xml -p", ["-p=xml", "-o=json"] + flags + ["."], xml_write(e, rng).encode(), "json", doc)
+        if _no_null(doc):
+            add("xml -o", ["-p=json", "-o=xml"] + flags + ["."], json.dumps(doc).encode(), "xml", jnorm(elem_norm(e)))
+    for _ in range(cx.n(8, 80)):
+        t = gen_toml_doc(rng)
+        try:
+            want = tomllib.loads(t)
+        except Exception:
+            continue
+        if not want or toml_empty_headers(t) or "0b" in t or "nan" in t or "inf" in t or any(x in t for x in TOML_DT):
+            continue
+        add("toml -p", ["-p=toml", "-o=json", "."], t.encode(), "json_close", want)
+    for _ in range(cx.n(8, 80)):
+        v = gen_json_tree(rng)
+        if not isinstance(v, dict) or not v or not _no_null(v):
+            continue
+        unq = rng.random() < 0.5
+        add("lua -o", ["-p=json", "-o=lua"] + (["--lua-unquoted"] if unq else []) + ["."], json.dumps(v).encode(), "lua", v)
+        add("lua -p", ["-p=lua", "-o=json", "."], b"return " + lua_write(rng, _to_bytes(v)) + b";\n", "json_unordered", v)
+    with ThreadPoolExecutor(vlib.NCPU) as ex:
+        results = list(ex.map(cli_run, jobs))
+    for (label, args, stdin, reader, expected), (good, rc, out, err) in zip(jobs, results):
+        chk.count(("cli", label, stdin), nontrivial=True)
+        if not good:
+            cx.viol("cli", {"label": label, "args": args, "stdin_b64": vlib.b64e(stdin), "stdin": stdin.decode("utf-8", "replace"), "reader": reader, "expected": expected,
+                            "rc": rc, "stdout": out.decode("utf-8", "replace")[:2000], "stderr": err.decode("utf-8", "replace")[:500]},
+                    "real binary, %s: the output is not what an independent reader / the ground truth gives" % label)
+    cx.dist["cli"] = {"runs": len(jobs)}
+
+
+def _utf8(b):
+    try:
+        b.decode("utf-8")
+        return True
+    except UnicodeDecodeError:
+        return False
+
+
+def _no_null(v):
+    if isinstance(v, dict):
+        return all(_no_null(x) for x in v.values()) and len(v) > 0
+    if isinstance(v, list):
+        return all(_no_null(x) for x in v) and len(v) > 0
+    return v is not None
+
+
+def _to_bytes(v):
+    if isinstance(v, dict):
+        return {k.encode(): _to_bytes(x) for k, x in v.items()}
+    if isinstance(v, list):
+        return [_to_bytes(x) for x in v]
+    if isinstance(v, str):
+        return v.encode()
+    return v
+
+
+def _lua_expect(v):
+    return v
+
+
+def _json_sorted(v):
+    if isinstance(v, dict):
+        return sorted((k, _json_sorted(x)) for k, x in v.items())
+    if isinstance(v, list):
+        return [_json_sorted(x) for x in v]
+    return v
+
+
+def _json_close(got, want):
+    if isinstance(want, dict):
+        return isinstance(got, dict) and list(got) == list(want) and all(_json_close(got[k], want[k]) for k in want)
+    if isinstance(want, list):
+        return isinstance(got, list) and len(got) == len(want) and all(_json_close(g, w) for g, w in zip(got, want))
+    if isinstance(want, float):
+        return isinstance(got, (int, float)) and not isinstance(got, bool) and float(got) == want
+    return type(got) == type(want) and got == want
+
+
+# --------------------------------------------------------------------------
 # replay / run
 # --------------------------------------------------------------------------
 def replay(rp):
@@ -1863,7 +2019,120 @@ def replay(rp):
     return False
 
 
-REPLAYERS = {}
+def _one(req):
+    return vlib.yqh_batch([req])[0]
+
+
+def _rp_csvenc(rp):
+    r = _one({"op": "c14_enc", "fmt": rp["fmt"], "sep": rp["sep"], "node": Q([Q([S(f) for f in row]) for row in rp["rows"]])})
+    return ok(r) and py_csv_read(vlib.b64d(r["out_b64"]).decode("utf-8"), rp["sep"]) == rp["rows"]
+
+
+def _rp_csvdec(rp):
+    r = _one({"op": "c14_dec", "fmt": rp["fmt"], "sep": rp["sep"], "csv_auto": False, "text_b64": rp["text_b64"]})
+    if "want" not in rp:
+        return r is not None and not r.get("panic") and not r.get("crash") and not r.get("timeout")
+    want = rp["want"]
+    header, body = list(want[0]), want[1:]
+    if vlib.b64d(rp["text_b64"]).startswith(b"\xef\xbb\xbf") and header[0].startswith("\ufeff"):
+        header[0] = header[0][1:]
+    exp = [[x.encode() for pair in zip(header, row) for x in pair] for row in body]
+    return ok(r) and objs_from_dump(r["node"]) == exp
+
+
+def _rp_csvobj(rp):
+    d = rp["doc"]
+    r = _one({"op": "c14_enc", "fmt": rp["fmt"], "sep": rp["sep"], "node": to_node(d)})
+    if not (len(d) > 0 and all(isinstance(o, dict) for o in d)):
+        return r is not None and not r.get("panic") and not r.get("crash")
+    if not all(isinstance(v, str) for o in d for v in o.values()):
+        return failed_cleanly(r)
+    hdr = list(d[0].keys())
+    want = [hdr] + [[o.get(k, "") for k in hdr] for o in d]
+    if any(k not in hdr for o in d for k in o):
+        return False            # the recorded extra-key loss still stands unless the encoder reports it
+    return ok(r) and [x for x in py_csv_read(vlib.b64d(r["out_b64"]).decode("utf-8"), rp["sep"]) if x != []] == [x for x in want if x != [""]]
+
+
+def _rp_csvop(rp):
+    sep = "\t" if "tsv" in rp["expr"] else ","
+    r = _one({"op": "c14_op", "expr": rp["expr"], "node": Q([S(f) for f in rp["row"]])})
+    return ok(r) and len(r["nodes"]) == 1 and py_csv_read(sval(r["nodes"][0]).decode("utf-8"), sep) == [rp["row"]]
+
+
+def _rp_propsenc(rp):
+    d = rp["doc"]
+    r = _one({"op": "c14_enc", "fmt": "props", "props_sep": rp["sep"], "props_brackets": rp["brackets"], "node": to_node(d)})
+    want = {}
+    for k, v in props_flatten(d, "", rp["brackets"]):
+        want[k] = v
+    return ok(r) and java_props_read(vlib.b64d(r["out_b64"]).decode("utf-8")) == [(k, v) for k, v in want.items() if k != ""]
+
+
+def _rp_propsdec(rp):
+    r = _one({"op": "c14_dec", "fmt": "props", "text_b64": rp["text_b64"]})
+    if "want" not in rp:
+        return r is not None and not r.get("panic") and not r.get("crash")
+    return ok(r) and from_node(r["node"], typed=False) == rp["want"]
+
+
+def _rp_xmlenc(rp):
+    r = _one({"op": "c14_enc", "fmt": "xml", "xml_attr": rp["attr_prefix"], "xml_content": rp["content_name"], "indent": rp.get("indent", 2), "node": rp["node"]})
+    return ok(r) and jnorm(et_to_elem(ET.fromstring(vlib.b64d(r["out_b64"]).decode("utf-8")))) == jnorm(elem_norm(rp["elem"]))
+
+
+def _rp_xmldec(rp):
+    r = _one({"op": "c14_dec", "fmt": "xml", "xml_attr": rp["attr_prefix"], "xml_content": rp["content_name"], "text_b64": rp["text_b64"]})
+    return ok(r) and from_node(r["node"]) == rp["want"]
+
+
+def _rp_xmlop(rp):
+    e = rp["elem"]
+    ap, cn = rp["attr_prefix"], rp["content_name"]
+    r = _one({"op": "c14_op", "expr": "to_xml | from_xml", "xml_attr": ap, "xml_content": cn, "node": M([(e[0], xml_value_node(e, ap, cn))])})
+    return ok(r) and len(r["nodes"]) == 1 and from_node(r["nodes"][0]) == rp["want"]
+
+
+def _rp_tomldec(rp):
+    t = vlib.b64d(rp["text_b64"]).decode("utf-8")
+    r = _one({"op": "c14_dec", "fmt": "toml", "text_b64": rp["text_b64"]})
+    want = tomllib.loads(t)
+    return ok(r) and r.get("node") is not None and toml_same(from_node(r["node"]), want)
+
+
+def _rp_tomlenc(rp):
+    r = _one({"op": "c14_enc", "fmt": "toml", "node": rp["node"]})
+    return (ok(r) and vlib.b64d(r["out_b64"]) == sval(rp["node"]) + b"\n") if rp["node"]["k"] == "s" else failed_cleanly(r)
+
+
+def _rp_luaenc(rp):
+    r = _one(dict({"op": "c14_enc", "fmt": "lua", "node": rp["tree"]}, **rp.get("cfg", {})))
+    return ok(r) and lua_same(lua_read(vlib.b64d(r["out_b64"])), lua_from_node(rp["tree"]))
+
+
+def _rp_luadec(rp):
+    t = vlib.b64d(rp["text_b64"])
+    r = _one({"op": "c14_dec", "fmt": "lua", "text_b64": rp["text_b64"]})
+    return ok(r) and r.get("node") is not None and lua_same(lua_from_node(r["node"]), lua_read(t))
+
+
+def _rp_pairop(rp):
+    r = _one({"op": "c14_op", "expr": rp["expr"], "node": rp["node"]})
+    if not (ok(r) and len(r.get("nodes", [])) == 1):
+        return False
+    if rp["expr"] == "to_json(0)":
+        return json.loads(sval(r["nodes"][0])) == rp["want"]
+    return from_node(r["nodes"][0]) == rp["want"]
+
+
+def _rp_cli(rp):
+    good, rc, out, err = cli_run((rp["label"], rp["args"], vlib.b64d(rp["stdin_b64"]), rp["reader"], rp["expected"]))
+    return good
+
+
+REPLAYERS = {"csvenc": _rp_csvenc, "csvdec": _rp_csvdec, "csvobj": _rp_csvobj, "csvop": _rp_csvop, "propsenc": _rp_propsenc, "propsdec": _rp_propsdec,
+             "xmlenc": _rp_xmlenc, "xmldec": _rp_xmldec, "xmlop": _rp_xmlop, "tomldec": _rp_tomldec, "tomlenc": _rp_tomlenc, "luaenc": _rp_luaenc,
+             "luadec": _rp_luadec, "pairop": _rp_pairop, "cli": _rp_cli}
 
 
 def run(chk):
@@ -1898,12 +2167,24 @@ def run(chk):
         assumptions=ASSUMPTIONS)
 
 
-RULE = ("base64/URI: every single byte, all short lengths, boundary patterns and seeded random byte strings, both directions "
-        "(ground truth written by python's base64 / urllib, incl. unpadded, line-wrapped and malformed text); "
-        "a case is non-trivial when the codec changed the text resp. the text is well-formed and non-empty; distinct by input.")
+RULE = ("base64/URI: every single byte, all short lengths, boundary patterns and seeded random byte strings, both directions (ground truth written by "
+        "python's base64 / urllib, incl. unpadded, line-wrapped and malformed text); CSV/TSV: rows and objects over fields with separators, quotes, CR, LF, "
+        "leading blanks, unicode, 5 separators, ground truth written by an RFC 4180 writer here (LF / CRLF / quote-all), yq's output read by python's csv; "
+        "properties: flat maps and nested trees with = : # ! blanks backslashes unicode, java.util.Properties-style reader and writer written here; "
+        "XML: element trees with attributes, text, repeated children, 3 attribute-prefix / content-name settings, xml.etree as reader, own writer (entities, CDATA, "
+        "character references); TOML: generated documents (typed scalars, dotted keys, tables, arrays of tables, inline tables) with tomllib as the reference reader; "
+        "Lua: trees with all byte values in strings and keyword / non-identifier keys, a Lua data reader and writer written here; in-expression pairs; a sample "
+        "of each through the real binary with its command line flags. A case is non-trivial when the codec had to quote / escape / nest (per section); distinct by input.")
 TRUSTED = [
-    "Spec/Codecs.v (hand-written: form-urlencoded grammar and denotation, RFC 4180 field denotation)",
-    "python3 stdlib readers/writers used as independent oracles (base64, urllib.parse, csv, xml.etree, tomllib)",
-    "Go's streaming base64 decoder checks for data after a padded quantum per chunk (<= 1024 characters); the model checks it globally; malformed correspondence inputs are kept below one chunk",
+    "Spec/Codecs.v (hand-written: form-urlencoded grammar and denotation, RFC 4180 field denotation, Lua short-string lexer and Name, the stated domains)",
+    "python3 stdlib readers used as independent oracles (base64, urllib.parse, csv, xml.etree, tomllib) and the small java.util.Properties / RFC 4180 / Lua "
+    "data readers and writers in checks/props/c14.py",
+    "strings are byte lists: exact for valid UTF-8; Go substitutes U+FFFD on invalid UTF-8 in the properties writer (outside the model and the generators)",
+    "Go's stream base64 decoder works in blocks of the buffered text; the model follows the block structure for one read (texts below 680 characters); "
+    "longer malformed texts with interior pad characters are outside the model",
+    "library contracts, tested not proved: encoding/xml tokenizer and escaper, go-toml/v2 unstable parser, gopher-lua VM, magiconair dollar-brace expansion, "
+    "the YAML snippet parser that re-types CSV / properties scalars, utfbom for UTF-16/32 marks",
+    "modelled, not verified: the CSV separator is one byte below 128; properties comments, UnwrapScalar=false quoting and unicode literals above U+FFFF are not modelled",
 ]
-ASSUMPTIONS = ["correspondence is sampled; the unbounded claims are the Coq theorems over the models"]
+ASSUMPTIONS = ["correspondence is sampled; the unbounded claims are the Coq theorems over the models",
+               "XML, TOML and the Lua decoder have no Coq model: for them the result rests on the differential tests against independent readers only"]
